@@ -1,11 +1,12 @@
 #!/bin/bash
-# builds the shim against /repo/src as it is now: plain and ASan+UBSan variants
+# builds the shim against $VERIF_REPO/src (default /repo/src) as it is now: plain and (with "san") ASan+UBSan variants
 set -e
 here="$(cd "$(dirname "$0")" && pwd)"
-out="$here/build"; mkdir -p "$out"
-srcs="/repo/src/permanent.cpp /repo/src/permanent_laplace.cpp /repo/src/torontonian.cpp /repo/src/loop_torontonian.cpp /repo/src/torontonian_common.cpp /repo/src/pfaffian.cpp"
-g++ -O2 -fopenmp -std=c++17 -fPIC -shared -I/repo/src "$here/shim.cpp" $srcs -o "$out/libvf.so"
+repo="${VERIF_REPO:-/repo}"
+out="${VERIF_NATIVE_BUILD:-$here/build}"; mkdir -p "$out"
+srcs="$repo/src/permanent.cpp $repo/src/permanent_laplace.cpp $repo/src/torontonian.cpp $repo/src/loop_torontonian.cpp $repo/src/torontonian_common.cpp $repo/src/pfaffian.cpp"
+g++ -O2 -fopenmp -std=c++17 -fPIC -shared -I"$repo/src" "$here/shim.cpp" $srcs -o "$out/libvf.so"
 if [ "$1" = "san" ]; then
-  g++ -O1 -g -fopenmp -std=c++17 -fsanitize=address,undefined -fno-sanitize-recover=undefined -fno-omit-frame-pointer -I/repo/src "$here/san_driver.cpp" "$here/shim.cpp" $srcs -o "$out/vf_san"
+  g++ -O1 -g -fopenmp -std=c++17 -fsanitize=address,undefined -fno-sanitize-recover=undefined -fno-omit-frame-pointer -I"$repo/src" "$here/san_driver.cpp" "$here/shim.cpp" $srcs -o "$out/vf_san"
 fi
 echo built
